@@ -3,7 +3,6 @@
 # SPDX-License-Identifier: MIT
 
 from __future__ import annotations
-import functools
 import logging
 from dataclasses import dataclass
 from pathlib import Path
@@ -40,9 +39,22 @@ def _read_definitions(
             if dependency_dsdl_file.file_path not in file_pool:
                 _pending_definitions.add(dependency_dsdl_file)
 
-    def print_handler(file: Path, line: int, message: str) -> None:
-        if print_output_handler is not None:
-            print_output_handler(file, line, message)
+    class _FilePrintHandler:
+        """
+        Adapts the user-provided handler (path, line, text) to the (line, text) interface expected by the definition
+        reader. Dependencies are read recursively by the builder of the referring definition, which uses :meth:`bind`
+        to obtain a handler that reports the path of the dependency rather than the path of the referring definition.
+        """
+
+        def __init__(self, file: Path) -> None:
+            self._file = file
+
+        def __call__(self, line: int, message: str) -> None:
+            if print_output_handler is not None:
+                print_output_handler(self._file, line, message)
+
+        def bind(self, file: Path) -> "_FilePrintHandler":
+            return _FilePrintHandler(file)
 
     for target_definition in target_definitions:
 
@@ -66,7 +78,7 @@ def _read_definitions(
             new_composite_type = target_definition.read(
                 lookup_definitions,
                 [_Callback()],
-                functools.partial(print_handler, target_definition.file_path),
+                _FilePrintHandler(target_definition.file_path),
                 allow_unregulated_fixed_port_id,
             )
         except Error as ex:  # pragma: no cover
